@@ -183,9 +183,8 @@ bool congruence<Number>::operator<=(const congruence<Number> &o) const {
       return true;
     }
   } else if (o.m_a == 0) {
-    if (m_b % m_a == (o.m_b % m_a)) {
-      return false;
-    }
+    // aZ+b with a != 0 is never included in a single number
+    return false;
   }
   return (m_a % o.m_a == 0) && (m_b % o.m_a == o.m_b % o.m_a);
 }
